@@ -394,6 +394,14 @@ def extract_by_behaviour(repo: Path) -> dict:
             if transfer is not t:
                 raise TranslateError('_remove_local_file called for another transfer')
             log.append('removeLocalFile')
+            # the effect statement is the call; what the call answers its caller is what the real helper answers when the
+            # file system raises nothing (the probe transfer has no local_path: nothing is looked up, nothing removed) —
+            # None today, but a helper that reports success must be heard saying so
+            depth[0] += 1
+            try:
+                return await saved(transfer)
+            finally:
+                depth[0] -= 1
         saved = st_mod._remove_local_file
         st_mod._remove_local_file = remove_local_file
         object.__setattr__(t, '_spy_on', True)
